@@ -252,7 +252,9 @@ record_ops(Run *r, void *it, unsigned nops)
             break;
         }
         case 9: { /* SET_NAME nullerr nlen name zlen zone */
-            int            ne   = rd8(r);
+            int            fl   = rd8(r);
+            int            ne   = fl & 0x7f;
+            int            zptr = fl & 0x80; /* pass a non-NULL zone pointer even when the zone is empty */
             size_t         nlen = rd16(r);
             const uint8_t *n    = rdn(r, nlen);
             size_t         zlen = rd16(r);
@@ -263,7 +265,7 @@ record_ops(Run *r, void *it, unsigned nops)
             int            ret;
             memcpy(fn.buf, n, nlen);
             memcpy(fz.buf, z, zlen);
-            ret = r->t->set_name(it, ne ? NULL : &err, (const char *) fn.buf, nlen, zlen ? fz.buf : NULL, zlen);
+            ret = r->t->set_name(it, ne ? NULL : &err, (const char *) fn.buf, nlen, (zlen || zptr) ? fz.buf : NULL, zlen);
             lg8(r, 0x19);
             lg_ret(r, ret, err, ne);
             if (fenced_free(&fn) | fenced_free(&fz)) { lg8(r, 0xEE); lg8(r, op); }
@@ -391,7 +393,7 @@ cdrv_run(const FnTable *t, ParsedPacket *pp, const uint8_t *script, size_t scrip
             break;
         }
         case 9: { /* RAW_PACKET cap */
-            size_t cap = rd16(&r);
+            size_t cap = rd32(&r);
             Fenced f   = fenced_new(cap);
             size_t len = 0xdddd;
             int    ret = t->raw_packet(pp, f.buf, &len, cap);
